@@ -16,7 +16,7 @@ use serde_json::{json, Value};
 use simcore::kproto::*;
 use simcore::{drop_chunks, Fnv, Outcome, Rng};
 
-use super::c16::{end_of_run_checks, parse_airplanes_tab, tab_bar_count, table_of, Parsed, Row, RX};
+use super::c16::{end_of_run_checks, parse_airplanes_tab, tab_bar_count, table_of, Parsed, Row};
 use super::pty::{run_child, Spec};
 use super::vt::{Frame as Screen, Vt};
 use super::{exe, parse_log, LogEv};
@@ -39,7 +39,18 @@ pub struct K18 {
     /// lines per segment) before anything else; frames are judged once the backlog is consumed
     #[serde(default)]
     pub bulk: usize,
+    /// receiver position (--lat / --long); default (35, -80)
+    #[serde(default = "default_rx")]
+    pub rx: (f64, f64),
 }
+
+fn default_rx() -> (f64, f64) {
+    (35.0, -80.0)
+}
+
+/// receivers in all four hemispheres, and close enough to the equator / prime meridian that the
+/// marker and aircraft offsets straddle them (small negative coordinates, sign changes)
+const RECEIVERS: [(f64, f64); 8] = [(35.0, -80.0), (35.0, -80.0), (-35.0, 150.0), (52.0, 4.0), (0.2, 0.3), (-0.3, -0.2), (-33.9, -70.7), (1.3, 103.9)];
 
 fn key(code: &str) -> KEv {
     KEv::Key { code: code.into(), ctrl: false, shift: false, alt: false }
@@ -49,12 +60,18 @@ const D_LAT: f64 = 0.5;
 const D_LON: f64 = 0.4;
 
 pub fn generate(rng: &mut Rng, fault_free: bool) -> K18 {
+    let rx = if fault_free { (35.0, -80.0) } else { *rng.pick(&RECEIVERS) };
     let cols = *rng.pick(&[110u16, 120, 140, 160, 200]);
     let rows = *rng.pick(&[40u16, 44, 50, 60]);
     let filter_time = if fault_free { 1000 } else { *rng.pick(&[2u64, 3, 1000, 1000]) };
     // markers: the receiver itself and controlled offsets d / 2d on each axis
+    // latitude offsets are chosen so that they span the same number of canvas rows at every
+    // receiver latitude (Mercator stretches a degree of latitude by 1/cos(lat)); the layout below
+    // (labels on distinct rows) was designed at 35 degrees
+    let lat_f = rx.0.to_radians().cos() / 35.0f64.to_radians().cos();
     let mut locations = vec![("RX".to_string(), 0.0, 0.0)];
-    let all = [("N1", D_LAT, 0.0), ("N2", 2.0 * D_LAT, 0.0), ("S1", -D_LAT, 0.0), ("S2", -2.0 * D_LAT, 0.0), ("E1", 0.0, D_LON), ("E2", 0.0, 2.0 * D_LON), ("W1", 0.0, -D_LON), ("W2", 0.0, -2.0 * D_LON)];
+    let d_lat = D_LAT * lat_f;
+    let all = [("N1", d_lat, 0.0), ("N2", 2.0 * d_lat, 0.0), ("S1", -d_lat, 0.0), ("S2", -2.0 * d_lat, 0.0), ("E1", 0.0, D_LON), ("E2", 0.0, 2.0 * D_LON), ("W1", 0.0, -D_LON), ("W2", 0.0, -2.0 * D_LON)];
     for (n, a, b) in all {
         if rng.chance(0.8) {
             locations.push((n.to_string(), a, b));
@@ -78,7 +95,7 @@ pub fn generate(rng: &mut Rng, fault_free: bool) -> K18 {
     }
     for (a, &slot) in order.iter().take(nac).enumerate() {
         let addr = [0xa0 + (slot as u8), 0x20, a as u8 + 1];
-        let (dlat, dlon) = slots[slot];
+        let (dlat, dlon) = (slots[slot].0 * lat_f, slots[slot].1);
         let from = rng.below(dur_a / 2);
         let to = if rng.chance(0.4) { from + 400_000 + rng.below(dur_a / 2) } else { dur_a };
         let mut t = from;
@@ -90,7 +107,7 @@ pub fn generate(rng: &mut Rng, fault_free: bool) -> K18 {
                 0 => wire::me_identification(4, 0, &cs),
                 1 | 2 => {
                     odd = !odd;
-                    let (yz, xz) = wire::cpr_encode(RX.0 + dlat, RX.1 + dlon, odd);
+                    let (yz, xz) = wire::cpr_encode(rx.0 + dlat, rx.1 + dlon, odd);
                     wire::me_airborne_position(11, 0, 0, wire::ac12_q(5_000 + 2_000 * slot as i32), false, odd, yz, xz)
                 }
                 _ => wire::me_velocity(1, 0, wire::sub_ground_speed(rng.below(2) as u8, 50 + rng.below(400) as u16, rng.below(2) as u8, 50 + rng.below(400) as u16), 0, 0, 1 + rng.below(60) as u16, 0, 3),
@@ -197,7 +214,7 @@ pub fn generate(rng: &mut Rng, fault_free: bool) -> K18 {
     push(&mut events_b, &mut t, key("F4"), 250_000);
     push(&mut events_b, &mut t, key("F1"), 250_000);
     push(&mut events_b, &mut t, key("c:q"), 0);
-    K18 { cols, rows, filter_time, locations, flags, lines, events_a, events_b, bulk }
+    K18 { cols, rows, filter_time, locations, flags, lines, events_a, events_b, bulk, rx }
 }
 
 fn end_a(sc: &K18) -> u64 {
@@ -216,7 +233,7 @@ pub fn compile(sc: &K18) -> KChild {
             let me = match i {
                 0 => wire::me_identification(4, 0, "BULK"),
                 1 | 2 => {
-                    let (yz, xz) = wire::cpr_encode(RX.0 + 0.1, RX.1 + 0.1, i == 2);
+                    let (yz, xz) = wire::cpr_encode(sc.rx.0 + 0.1, sc.rx.1 + 0.1, i == 2);
                     wire::me_airborne_position(11, 0, 0, wire::ac12_q(12_000), false, i == 2, yz, xz)
                 }
                 _ => wire::me_velocity(1, 0, wire::sub_ground_speed(0, 1 + (i % 900) as u16, 0, 1 + (i * 7 % 900) as u16), 0, 0, 1 + (i % 300) as u16, 0, 3),
@@ -338,12 +355,12 @@ fn map_text(s: &Screen) -> Option<String> {
 pub fn execute(sc: &K18) -> Outcome {
     let mut out = Outcome::default();
     let child = compile(sc);
-    let mut args: Vec<String> = vec!["--lat=35.0".into(), "--long=-80.0".into(), "--log-folder=logs".into(), format!("--filter-time={}", sc.filter_time)];
+    let mut args: Vec<String> = vec![format!("--lat={}", sc.rx.0), format!("--long={}", sc.rx.1), "--log-folder=logs".into(), format!("--filter-time={}", sc.filter_time)];
     args.extend(sc.flags.iter().cloned());
     if !sc.locations.is_empty() {
         args.push("--locations".into());
         for (n, a, b) in &sc.locations {
-            args.push(format!("({n},{},{})", RX.0 + a, RX.1 + b));
+            args.push(format!("({n},{},{})", sc.rx.0 + a, sc.rx.1 + b));
         }
     }
     let run = run_child(&Spec { exe: &exe("radar"), args, child: &child, tty: Some((sc.cols, sc.rows)), wall_limit: Duration::from_secs(30) });
@@ -413,7 +430,7 @@ pub fn execute(sc: &K18) -> Outcome {
                     consumed += nl + 1;
                     if let Some(bytes) = super::c16::well_formed_frame(line) {
                         if let Ok(f) = Frame::from_bytes(&bytes) {
-                            let added = tr.action(f, RX, 500.0);
+                            let added = tr.action(f, sc.rx, 500.0);
                             if added == Added::Yes {
                                 total_added += 1;
                             }
@@ -676,7 +693,7 @@ fn check_map(sc: &K18, s: &Screen, rect: (usize, usize, usize, usize), r: &RefSn
             return;
         }
         out.probe("aircraft_label_found");
-        pos.insert(format!("ac:{k}"), (found[0].0, found[0].1, lat - RX.0, lon - RX.1));
+        pos.insert(format!("ac:{k}"), (found[0].0, found[0].1, lat - sc.rx.0, lon - sc.rx.1));
     }
     // the receiver is at the centre
     if let Some((x, y, _, _)) = pos.get("RX") {
@@ -691,11 +708,11 @@ fn check_map(sc: &K18, s: &Screen, rect: (usize, usize, usize, usize), r: &RefSn
     for (name, (x, y, dlat, dlon)) in &pos {
         let (x, y) = (*x as i64, *y as i64);
         // quadrant relative to the centre (offsets are more than one cell by construction)
-        if *dlat > 0.2 && y >= centre.1 {
+        if *dlat > 0.15 && y >= centre.1 {
             out.violate("C18:map-north-is-not-up", format!("frame {}: {name} lies {dlat} deg north of the receiver but is drawn in row {y}, the centre row is {}", s.k, centre.1));
             return;
         }
-        if *dlat < -0.2 && y <= centre.1 {
+        if *dlat < -0.15 && y <= centre.1 {
             out.violate("C18:map-south-is-not-down", format!("frame {}: {name} lies {} deg south of the receiver but is drawn in row {y}, the centre row is {}", s.k, -dlat, centre.1));
             return;
         }
@@ -798,6 +815,13 @@ pub fn shrink(sc: &K18) -> Vec<K18> {
     if sc.bulk > 0 {
         c.push(K18 { bulk: 0, ..sc.clone() });
     }
+    if sc.rx != (35.0, -80.0) {
+        // moving the receiver moves everything with it: re-encode is not possible here, so only
+        // try it when there is no traffic left
+        if sc.lines.is_empty() {
+            c.push(K18 { rx: (35.0, -80.0), ..sc.clone() });
+        }
+    }
     if sc.filter_time != 1000 {
         c.push(K18 { filter_time: 1000, ..sc.clone() });
     }
@@ -806,7 +830,7 @@ pub fn shrink(sc: &K18) -> Vec<K18> {
 
 pub fn describe(sc: &K18) -> Value {
     json!({
-        "terminal": format!("{}x{}", sc.cols, sc.rows), "filter_time": sc.filter_time, "flags": sc.flags,
+        "receiver": sc.rx, "terminal": format!("{}x{}", sc.cols, sc.rows), "filter_time": sc.filter_time, "flags": sc.flags,
         "locations": sc.locations, "traffic_lines": sc.lines.len(), "backlog_lines_of_one_aircraft": sc.bulk,
         "phase_a_events": sc.events_a.iter().take(10).map(|e| format!("t={}us {:?}", e.at_us, e.ev)).collect::<Vec<_>>(),
         "phase_b_events": sc.events_b.iter().map(|e| format!("+{}us {:?}", e.at_us, e.ev)).collect::<Vec<_>>(),
